@@ -315,6 +315,10 @@ Definition reps : list ity :=
   ++ flat_map (fun al => ITyping (fst al) :: map (ITypingSub (fst al)) arg_reps) (t_talias T).
 End Guarded.
 
+(* the constructors unwrap() peels without looking at qualifiers *)
+Definition is_wrapper (t : ity) : bool :=
+  match t with IAlias _ _ | IAliasStr _ _ | INewType _ _ => true | _ => false end.
+
 Definition dres_eqb (a : dres string) (b : string) : bool :=
   match a with DOk s => String.eqb s b | _ => false end.
 
@@ -412,3 +416,57 @@ Definition with_unm (D : dtables) (hs : handlers) : dtables :=
   Build_dtables (d_tbl D) hs (d_unm_fb D) (d_mar D) (d_mar_fb D) (d_impl D).
 Definition with_mar (D : dtables) (hs : handlers) : dtables :=
   Build_dtables (d_tbl D) (d_unm D) (d_unm_fb D) hs (d_mar_fb D) (d_impl D).
+
+(* ------------------------------------------------------------------ wrapped annotations *)
+(* what unwrap() is meant to return: qualifiers, NewTypes and aliases peeled; an alias of a string is the
+   forward reference to it *)
+Fixpoint peel (t : ity) : ity :=
+  match t with
+  | INewType _ s | IAlias _ s | IFinal s | IClassVar s => peel s
+  | IAliasStr _ s => IForwardRef s (Some user_module)
+  | _ => t
+  end.
+Fixpoint wdepth (t : ity) : nat :=
+  match t with INewType _ s | IAlias _ s | IFinal s | IClassVar s => S (wdepth s) | _ => 1 end.
+(* NewTypes and aliases only *)
+Fixpoint plain (t : ity) : bool :=
+  match t with INewType _ s | IAlias _ s => plain s | IFinal _ | IClassVar _ => false | _ => true end.
+(* qualifiers outside, NewTypes / aliases inside (a NewType of a qualified type is not a type) *)
+Fixpoint wrap_ok (t : ity) : bool :=
+  match t with INewType _ _ | IAlias _ _ => plain t | IFinal s | IClassVar s => wrap_ok s | _ => true end.
+(* the reflected tables leave typing.Final alone (origin() of Final[X] is typing.Final) *)
+Definition wrap_tables_ok (T : tables) : bool := ity_eqb (origin T (IFinal INone)) (ISpecial SFinal).
+
+(* ------------------------------------------------------------------ whole annotations *)
+(* member positions of an unwrapped annotation (graph._level: the parameters, type variables normalised, the
+   Ellipsis of a variadic tuple skipped) *)
+Definition params (u : ity) : list ity :=
+  match u with ITypingSub _ l | IClassSub _ l | IUserSub _ l | IUnion _ l => l | _ => [] end.
+Definition is_ellipsis (t : ity) : bool := match t with IEllipsis => true | _ => false end.
+Definition is_typevar (t : ity) : bool := match t with ITypeVar _ _ _ => true | _ => false end.
+
+Section Whole.
+Variable D : dtables.
+(* every sub-annotation, at any depth: well wrapped, not deeper than the fuel of the unwrap model, and with a
+   supported head once unwrapped *)
+Fixpoint supported (t : ity) : bool :=
+  match t with
+  | INewType _ s | IAlias _ s | IFinal s | IClassVar s =>
+      wrap_ok t && Nat.leb (wdepth t) 200 && supported_head D (peel t) && supported s
+  | IAliasStr _ _ => true
+  | ITypingSub _ l | IClassSub _ l | IUserSub _ l | IUnion _ l =>
+      supported_head D t && forallb (fun x => is_ellipsis x || supported x) l
+  | ITypeVar _ (Some b) _ => negb (is_typevar b) && supported b
+  | ITypeVar _ None [] => supported_head D (IClass c_Any)
+  | ITypeVar _ None cs => forallb (fun x => is_ellipsis x || supported x) cs
+  | _ => supported_head D t
+  end.
+End Whole.
+
+(* s is a member of t: a parameter of the unwrapped t that is not the Ellipsis, type variable normalised *)
+Inductive member : ity -> ity -> Prop :=
+| member_intro t x : In x (params (peel t)) -> is_ellipsis x = false -> member (normalize_typevar x) t.
+(* s occurs in t at some depth *)
+Inductive occurs : ity -> ity -> Prop :=
+| occurs_here t : occurs t t
+| occurs_in s m t : member m t -> occurs s m -> occurs s t.
